@@ -297,19 +297,46 @@ func judge(k kase) (string, string) {
 	if !framesEqual(off.Frames, ref.Frames) {
 		return "trace-tro-off", detail
 	}
-	if !k.Recursive {
+	// Elimination may merge frames only where a call in tail position re-enters
+	// a function that is already active (that includes a builtin such as
+	// funcall calling funcall in tail position).  So: when no function name
+	// occurs twice in the reference chain the traces must be equal; otherwise
+	// the trace must be an order-preserving subsequence that keeps the innermost
+	// and the outermost frame, and NON-tail recursion keeps all its frames.
+	repeats := false
+	seen := map[string]bool{}
+	for _, f := range ref.Frames {
+		if f.Name != "" && seen[f.Name] {
+			repeats = true
+		}
+		seen[f.Name] = true
+	}
+	if !repeats {
 		if !framesEqual(on.Frames, ref.Frames) {
 			return "trace-tro-on", detail
 		}
 	} else {
-		if !subseq(on.Frames, ref.Frames) || len(on.Frames) == 0 || !sameFrame(on.Frames[0], ref.Frames[0]) {
+		n := len(on.Frames)
+		// a merged frame keeps the call-site position of the frame it reused, so
+		// the innermost frame is compared by name only
+		if n == 0 || !subseq(on.Frames, ref.Frames) || (ref.Frames[0].Name != "" && on.Frames[0].Name != ref.Frames[0].Name) || !sameFrame(on.Frames[n-1], ref.Frames[len(ref.Frames)-1]) {
 			return "trace-tro-on-not-a-subsequence", detail
 		}
-		if k.Leaf == "non-tail-recursion" && !framesEqual(on.Frames, ref.Frames) {
+		if k.Leaf == "non-tail-recursion" && (count(on.Frames, "rec") != count(ref.Frames, "rec") || count(on.Frames, "+") != count(ref.Frames, "+")) {
 			return "trace-tro-on-merged-non-tail-frames", detail
 		}
 	}
 	return "", detail
+}
+
+func count(fs []frame, name string) int {
+	n := 0
+	for _, f := range fs {
+		if f.Name == name {
+			n++
+		}
+	}
+	return n
 }
 
 func build(leafIdx int, ctxIdx []int, mode int) (kase, bool) {
